@@ -9,7 +9,7 @@ def sessions(ctx):
         yield from sessbase.model_sessions(ctx, rep, 'MC_Session_live.cfg', 'filter / selection changes at every point of the history',
                                            ctx.pick(1200, 20000), override={'MaxLen': ctx.pick(5, 5)})
         for k in range(ctx.pick(200, 2000)):
-            g = gen.SessionGen(ctx.seed * 49979687 + k, nconn=(1, 3), nmsg=(15, 45), junk=0.05, cmds=0.25, core=True,
+            g = gen.SessionGen(ctx.seed * 49979687 + k, nconn=(1, 3), nmsg=(15, 45), junk=0.05, cmds=0.25, core=True, unresolved=0.08,
                                matcher_depth=k % 3, with_init_filter=0.4)
             yield g.session(), {'dialect': ctx.rnd.choice(['old', 'new'])}, 'random-live'
     return it
